@@ -128,6 +128,46 @@ def run_case(ctx, mod, objs, case):
             out["equal"] = a == b
             if a != b:
                 out["native"], out["lxml"] = res["native"], res["lxml"]
+        elif op == "rewrite":
+            import random
+            import xmlrewrite as X
+            rr = random.Random(case["seed"])
+            xml = XmlSerializer(context=ctx).render(obj)
+            base = XmlParser(context=ctx).from_string(xml, type(obj))
+            mode = case["mode"]
+            trials = []
+            for _ in range(case.get("n", 3)):
+                kinds = [k for k in X.KINDS if rr.random() < 0.45 and k not in ("ws_between_children", "value_ws")]
+                eo = None
+                pad = False
+                if mode == "element_only":
+                    kinds.append("ws_between_children")
+                    # element-only content: elements that have children and no text / tails at all
+                    eo = lambda e: len(e) > 0 and not (e.text or "").strip() and all(not (c.tail or "").strip() for c in e)  # noqa
+                if mode == "value_ws":
+                    kinds.append("value_ws")
+                    pad = True
+                doc = X.rewrite(xml, kinds, rr, element_only=eo, pad_values=pad)
+                if mode == "general" and X.infoset(doc) != X.infoset(xml.encode()):
+                    trials.append({"kinds": kinds, "infoset_changed": True, "doc": doc.decode("utf-8", "replace")[:2000], "handler": "-"})
+                    continue
+                for hname, h in HANDLERS.items():
+                    t = {"kinds": kinds, "handler": hname}
+                    try:
+                        back = XmlParser(context=ctx, handler=h).from_bytes(doc, type(obj))
+                        d = eq(base, back)
+                        t["ok"] = d is None
+                        if d is not None:
+                            t["why"] = "differs at " + d
+                            t["doc"] = doc.decode("utf-8", "replace")[:3000] if not doc.startswith(b"\xff\xfe") else doc.decode("utf-16")[:3000]
+                            t["orig"] = xml[:3000]
+                    except Exception as e:  # noqa
+                        t["ok"] = False
+                        t["why"] = type(e).__name__ + ": " + str(e)[:200]
+                        t["doc"] = doc.decode("utf-8", "replace")[:3000]
+                        t["orig"] = xml[:3000]
+                    trials.append(t)
+            out["trials"] = trials
         else:
             raise KeyError(op)
     out["warnings"] = [str(w.category.__name__) for w in wl]
